@@ -18,6 +18,12 @@ def AcceptedStream (dec : Decoder) (cfg : Cfg) (pool : PoolObj) (s : Bytes) (e :
     (mergeAck (mergeCred pool f) a).remoteAck = 0
 
 
+/-- a side that puts ack(Null) on the wire has accepted the peer's credentials -/
+def AcceptedCreds (dec : Decoder) (cfg : Cfg) (pool : PoolObj) (s : Bytes) (e : End) : Prop :=
+  ∃ p1 rest1 f res, readRaw [msgTypeCred] s e = .frame msgTypeCred p1 rest1 headerSize ∧
+    dec msgTypeCred p1 = .cred f ∧ check cfg (mergeCred pool f) = .ok res
+
+
 /-- frames written by a side are read back as themselves by the other side: protobuf round trip of
 `Credentials` / `Ack`, frames below the size limit. (Trusted for the real encoder; exercised by the
 correspondence runs on real bytes; proved for the toy encoder of the driver.) -/
